@@ -265,6 +265,9 @@ def c14(tier):
     runs.append(("", sets.run_engine("C14", tier, fcfgs, 200, 2000, extra_args=["--reloc"], any_prop=True), 60))
     scfgs = [c for c in sets.SS_HIST_QUICK + (sets.SS_HIST_THOROUGH if tier == "thorough" else []) if c.backing == "flat" and c.elem != "NTR"]
     runs.append(("", sets.run_engine("C14", tier, scfgs, 200, 2000, ops=80, extra_args=["--reloc"], any_prop=True), 80))
+    by_name = {}
+    for cobj in vec.select("C14", tier) + fcfgs + scfgs:
+        by_name[cobj.name] = cobj
     cov = None
     viols, inc = [], []
     foreign = 0
@@ -280,10 +283,12 @@ def c14(tier):
             if hk in seen or x.get("hist") is None:
                 continue
             seen.add(hk)
-            b = core.find_binary([prefix + x["cfg"]])
-            if b is None:
-                inc.append({"why": "binary for %s not found" % x["cfg"]})
+            cobj = by_name.get(x["cfg"])
+            if cobj is None:
+                inc.append({"why": "configuration %s not found" % x["cfg"]})
                 continue
+            sp = cobj.spec()
+            b = core.build_many([sp])[sp["name"]]  # the very binary of this run (cached)
             r = core.run_history_range(b, x["cfg"], x["seed"], int(x["hist"]), int(x["hist"]) + 1, ["--ops", str(ops)], 600, 2)
             if r["viols"] or r["crashes"]:
                 foreign += 1   # fails without any relocation as well: not a relocatability defect
@@ -327,6 +332,20 @@ def setup():
         specs += extra()
     core.build_many(specs)
     print("setup: %d binaries ready in %.0fs" % (len(specs), time.time() - t0))
+    return 0
+
+
+def all_thorough_specs():
+    cfgs = (vec.THOROUGH_EXTRA + sets.FS_THOROUGH + sets.SS_SPACE_THOROUGH + sets.SS_HIST_THOROUGH + sets.HG_THOROUGH + sets.COST_THOROUGH + vec.GROWTH_THOROUGH +
+            vec.ALIAS_THOROUGH + vec.LIMITS_THOROUGH + vec.FAULT_THOROUGH + sets.SETFAULT_THOROUGH + vec.SWAP2_THOROUGH + sets.ALGO_THOROUGH)
+    return [c.spec() for c in cfgs] + [c16.spec(b) for b in c16.matrix("thorough")] + [c20.spec("clang++-14")]
+
+
+def setup_thorough():
+    t0 = time.time()
+    specs = all_thorough_specs()
+    core.build_many(specs)
+    print("setup-thorough: %d binaries ready in %.0fs" % (len(specs), time.time() - t0))
     return 0
 
 
